@@ -124,6 +124,14 @@ def run(prop, tier):
         rep.add_tlc(st)
         fam["paths"] = {"steps": psteps, "generated": len(ph), "replayed": len(ph), "exhaustive": True}
         hs = hs + ph
+    if prop == "C12":
+        # two datasets, the query of one embedded in a lambda of a chain on the other (a dataset node off the source chain)
+        xsteps = 7 if tier == "quick" else 9
+        xh, st = gen_histories(prop, "cross", "cross", xsteps)
+        rep.add_tlc(st)
+        xh = [h for h in xh if any(a["act"] == "DeriveCross" for a in h) and any(a["act"] == "ValueSync" for a in h)]
+        fam["cross"] = {"steps": xsteps, "generated": len(xh), "replayed": len(xh), "exhaustive": True}
+        hs = hs + xh
     if nrand:
         rs, st = gen_histories(prop, "rand", focus, rdepth, simulate=f"num={max(1, nrand // 160)}",
                                extra_args=["-depth", str(rdepth + 1), "-seed", str(common.seed() + 3)])
